@@ -18,3 +18,4 @@ void vk_load(int argc, char **argv)
         fclose(f);
 }
 #endif
+__attribute__((weak)) void kalign_verif_tables(const double *dna, const double *protein) { (void)dna; (void)protein; }
